@@ -940,18 +940,28 @@ class Interp:
             return [(Unknown("call:%s" % f.attr), s2)]
         # regular expressions over constants: the stdlib engine applied to a constant pattern and a constant subject
         if isinstance(f, ast.Attribute) and isinstance(f.value, ast.Name) and f.value.id == "re" and "re" not in st.env \
-                and f.attr in ("compile", "match", "search", "fullmatch", "sub", "findall", "split", "escape") \
+                and f.attr in ("compile", "match", "search", "fullmatch", "sub", "findall", "split", "escape", "finditer") \
                 and all(isinstance(a, Const) for a in list(args) + list(kw.values())):
             try:
-                return [(Const(getattr(_re, f.attr)(*[a.v for a in args], **{k: v.v for k, v in kw.items()})), st)]
+                r_ = getattr(_re, f.attr)(*[a.v for a in args], **{k: v.v for k, v in kw.items()})
+                return [(Const(list(r_) if f.attr == "finditer" else r_), st)]
+            except Exception as ex:
+                return [(Exc(type(ex).__name__, e), st)]
+        if ((isinstance(f, ast.Attribute) and isinstance(f.value, ast.Name) and f.value.id == "bisect" and "bisect" not in st.env) or (
+                isinstance(f, ast.Name) and f.id not in st.env)) and (f.attr if isinstance(f, ast.Attribute) else f.id) in (
+                "bisect_left", "bisect_right", "bisect") and len(args) in (2, 3, 4) and all(isinstance(a, Const) for a in args) and not kw:
+            import bisect as _bisect
+            try:
+                return [(Const(getattr(_bisect, f.attr if isinstance(f, ast.Attribute) else f.id)(*[a.v for a in args])), st)]
             except Exception as ex:
                 return [(Exc(type(ex).__name__, e), st)]
         if isinstance(f, ast.Attribute) and isinstance(recv, Const) and isinstance(recv.v, (_re.Pattern, _re.Match)):
-            ok_ = ("match", "search", "fullmatch", "sub", "findall", "split") if isinstance(recv.v, _re.Pattern) else (
+            ok_ = ("match", "search", "fullmatch", "sub", "findall", "split", "finditer") if isinstance(recv.v, _re.Pattern) else (
                 "group", "groups", "start", "end", "span", "groupdict")
             if f.attr in ok_ and all(isinstance(a, Const) for a in list(args) + list(kw.values())):
                 try:
-                    return [(Const(getattr(recv.v, f.attr)(*[a.v for a in args], **{k: v.v for k, v in kw.items()})), st)]
+                    r_ = getattr(recv.v, f.attr)(*[a.v for a in args], **{k: v.v for k, v in kw.items()})
+                    return [(Const(list(r_) if f.attr == "finditer" else r_), st)]
                 except Exception as ex:
                     return [(Exc(type(ex).__name__, e), st)]
         if isinstance(f, ast.Attribute) and isinstance(recv, Const):
